@@ -341,10 +341,14 @@ func (in *Interp) sprintfBytes(format string, args SliceV) (StrV, bool) {
 			out = append(out, c.BV(uint64(s[i]), 8))
 		}
 	}
-	hexDigit := func(n *smt.Term) *smt.Term { // n: 8-bit term holding 0..15
-		return c.Ite(c.Ult(n, c.BV(10, 8)), c.BVAdd(n, c.BV('0', 8)), c.BVAdd(n, c.BV('a'-10, 8)))
+	hexDigit := func(n *smt.Term, upper bool) *smt.Term { // n: 8-bit term holding 0..15
+		a := byte('a')
+		if upper {
+			a = 'A'
+		}
+		return c.Ite(c.Ult(n, c.BV(10, 8)), c.BVAdd(n, c.BV('0', 8)), c.BVAdd(n, c.BV(uint64(a-10), 8)))
 	}
-	symbolic := false
+	symbolic, hexed := false, false
 	ai := 0
 	for i := 0; i < len(format); i++ {
 		if format[i] != '%' {
@@ -376,7 +380,7 @@ func (in *Interp) sprintfBytes(format string, args SliceV) (StrV, bool) {
 		case StrV:
 			bs = in.strBytes(x)
 		case SliceV:
-			if x.SLen != nil || x.Nil && verb != 's' && verb != 'x' {
+			if x.SLen != nil || x.Nil && verb != 's' && verb != 'x' && verb != 'X' {
 				return StrV{}, false
 			}
 			if !x.Nil {
@@ -396,7 +400,7 @@ func (in *Interp) sprintfBytes(format string, args SliceV) (StrV, bool) {
 				}
 				bs = append(bs, t)
 			}
-			if verb != 'x' {
+			if verb != 'x' && verb != 'X' {
 				return StrV{}, false
 			}
 		case *smt.Term:
@@ -419,16 +423,17 @@ func (in *Interp) sprintfBytes(format string, args SliceV) (StrV, bool) {
 				return StrV{}, false // %v of a byte slice prints numbers
 			}
 			out = append(out, bs...)
-		case 'x':
+		case 'x', 'X':
+			hexed = true
 			for _, b := range bs {
-				out = append(out, hexDigit(c.BVLshr(b, c.BV(4, 8))), hexDigit(c.BVAnd(b, c.BV(15, 8))))
+				out = append(out, hexDigit(c.BVLshr(b, c.BV(4, 8)), verb == 'X'), hexDigit(c.BVAnd(b, c.BV(15, 8)), verb == 'X'))
 			}
 		default:
 			return StrV{}, false
 		}
 	}
-	if !symbolic {
-		return StrV{}, false // nothing symbolic: the descriptive formatter is exact enough
+	if !symbolic && !hexed {
+		return StrV{}, false // nothing symbolic, no byte strings: the descriptive formatter is exact
 	}
 	return in.mkStr(out), true
 }
